@@ -588,36 +588,432 @@ Proof.
 Qed.
 
 (* ------------------------------------------------------------------------------------------------ *)
+(** ** HAremove_atom *)
+Lemma adel_notin : forall A k (l : list (Z * A)), aget k l = None -> adel k l = l.
+Proof.
+  induction l as [|[k2 v2] t IH]; simpl; intros; auto.
+  destruct (k =? k2); [discriminate|]. now rewrite IH.
+Qed.
+
+Lemma live_group_facts : forall g m gp, live_group g m = Some gp ->
+  valid_group g = true /\ aget g (mgroups m) = Some gp /\ 0 < gcount gp.
+Proof.
+  unfold live_group. intros g m gp H. destruct (valid_group g); [|discriminate].
+  destruct (aget g (mgroups m)) as [gp0|]; [|discriminate].
+  destruct (gcount gp0 <=? 0) eqn:E; [discriminate|]. inversion H; subst. apply Z.leb_gt in E. auto.
+Qed.
+
+Lemma mgroups_cache_drop : forall id m, mgroups (cache_drop id m) = mgroups m.
+Proof.
+  intros. unfold cache_drop.
+  destruct (cid (mc0 m) =? id); [reflexivity|]. destruct (cid (mc1 m) =? id); [reflexivity|].
+  destruct (cid (mc2 m) =? id); [reflexivity|]. destruct (cid (mc3 m) =? id); reflexivity.
+Qed.
+
+Lemma live_group_cache_drop : forall g id m, live_group g (cache_drop id m) = live_group g m.
+Proof. intros. unfold live_group. now rewrite mgroups_cache_drop. Qed.
+
+Lemma m_find_cache_drop : forall x id m, m_find x (cache_drop id m) = m_find x m.
+Proof. intros. unfold m_find. now rewrite live_group_cache_drop. Qed.
+
+Lemma s_lookup_none_aget : forall id s, s_lookup id s = None -> aget id (slive s) = None.
+Proof. unfold s_lookup. intros. destruct (aget id (slive s)); [discriminate|auto]. Qed.
+
+Lemma cinv_drop : forall m m2 id,
+  Cinv m -> id <> -1 ->
+  mc0 m2 = mc0 (cache_drop id m) -> mc1 m2 = mc1 (cache_drop id m) -> mc2 m2 = mc2 (cache_drop id m) ->
+  mc3 m2 = mc3 (cache_drop id m) ->
+  (forall x, m_find x m2 = if x =? id then None else m_find x m) ->
+  Cinv m2.
+Proof.
+  intros m m2 id (v0 & v1 & v2 & v3 & d01 & d02 & d03 & d12 & d13 & d23) NE E0 E1 E2 E3 MF.
+  assert (A : forall c, cval m c -> cid c <> id -> cval m2 c).
+  { intros c [X|X] N; [left; auto|right]. rewrite MF. apply Z.eqb_neq in N. now rewrite N. }
+  assert (B : cval m2 cempty) by (left; auto).
+  assert (T1 : forall x, cdist cempty x) by (intros x _; reflexivity).
+  assert (T2 : forall x, cdist x cempty) by (intros x H; exact H).
+  assert (N : forall a b, cdist a b -> cid a = id -> cid b <> id).
+  { intros a b D Ea Eb. apply NE. rewrite <- Ea. apply D. congruence. }
+  unfold Cinv. rewrite E0, E1, E2, E3. unfold cache_drop.
+  destruct (cid (mc0 m) =? id) eqn:X0.
+  { apply Z.eqb_eq in X0. cbn [mc0 mc1 mc2 mc3 set_cache].
+    repeat split; auto; apply A; auto;
+      first [exact (N _ _ d01 X0) | exact (N _ _ d02 X0) | exact (N _ _ d03 X0)]. }
+  apply Z.eqb_neq in X0.
+  destruct (cid (mc1 m) =? id) eqn:X1.
+  { apply Z.eqb_eq in X1. cbn [mc0 mc1 mc2 mc3 set_cache].
+    repeat split; auto; apply A; auto; first [exact (N _ _ d12 X1) | exact (N _ _ d13 X1)]. }
+  apply Z.eqb_neq in X1.
+  destruct (cid (mc2 m) =? id) eqn:X2.
+  { apply Z.eqb_eq in X2. cbn [mc0 mc1 mc2 mc3 set_cache].
+    repeat split; auto; apply A; auto; exact (N _ _ d23 X2). }
+  apply Z.eqb_neq in X2.
+  destruct (cid (mc3 m) =? id) eqn:X3.
+  { apply Z.eqb_eq in X3. cbn [mc0 mc1 mc2 mc3 set_cache]. repeat split; auto. }
+  apply Z.eqb_neq in X3. repeat split; auto.
+Qed.
+
+Lemma remove_refines : forall m s id, Rel m s ->
+  fst (ha_remove id m) = fst (s_step (ARemove id) s) /\ Rel (snd (ha_remove id m)) (snd (s_step (ARemove id) s)).
+Proof.
+  intros m s id R. pose proof R as (G & L & MB & SI & C).
+  cbn [s_step fst snd].
+  assert (NOOP : m_find id m = None ->
+          (0 = match s_lookup id s with Some o => o | None => 0 end) /\ Rel m (mkSS (sgroups s) (adel id (slive s)))).
+  { intro F. rewrite <- L, F. split; auto. rewrite adel_notin by (apply s_lookup_none_aget; now rewrite <- L).
+    destruct s; exact R. }
+  unfold ha_remove. set (g := group_of id).
+  destruct (live_group g m) as [gp|] eqn:LG.
+  2:{ apply NOOP. unfold m_find. fold g. now rewrite LG. }
+  assert (MFL : m_find id m = find_node id (bucket gp (loc_of id (ghash gp)))) by (apply m_find_live; exact LG).
+  destruct (find_node id (bucket gp (loc_of id (ghash gp)))) as [o|] eqn:F.
+  2:{ apply NOOP. exact MFL. }
+  destruct (live_group_facts g m gp LG) as (V & AM & CP).
+  set (loc := loc_of id (ghash gp)) in *.
+  set (gp' := mkGrp (gcount gp) (ghash gp) (u32 (gatoms gp - 1)) (gnext gp) (aset loc (remove_node id (bucket gp loc)) (gbk gp))).
+  set (m2 := cache_drop id (set_group g gp' m)).
+  assert (CP' : gcount gp' <=? 0 = false) by (apply Z.leb_gt; exact CP).
+  assert (NE : id <> -1) by (intro X; rewrite X, m_find_minus1 in MFL; discriminate).
+  assert (MF : forall x, m_find x m2 = if x =? id then None else m_find x m).
+  { intro x. unfold m2. rewrite m_find_cache_drop, m_find_set_group by auto. rewrite CP'.
+    destruct (group_of x =? g) eqn:E.
+    - apply Z.eqb_eq in E. assert (LGx : live_group (group_of x) m = Some gp) by (rewrite E; exact LG).
+      rewrite (m_find_live x m gp LGx). unfold gp' at 1 2. rewrite bucket_aset. cbn [ghash].
+      destruct (x =? id) eqn:E2.
+      + apply Z.eqb_eq in E2. subst x. fold loc. rewrite Z.eqb_refl. apply find_remove_same. apply (MB g gp LG).
+      + apply Z.eqb_neq in E2. destruct (loc_of x (ghash gp) =? loc) eqn:E3; auto.
+        apply Z.eqb_eq in E3. rewrite E3. apply find_remove_other. congruence.
+    - destruct (x =? id) eqn:E2; auto. apply Z.eqb_eq in E2. subst x. apply Z.eqb_neq in E. unfold g in E. congruence. }
+  rewrite <- L, MFL. cbn [fst snd]. split; [reflexivity|]. fold m2.
+  destruct SI as [ND SI].
+  unfold Rel. split; [|split; [|split; [|split]]].
+  - intros g' V'. unfold m2. rewrite mgroups_cache_drop. unfold set_group. cbn [mgroups sgroups].
+    destruct (Z.eq_dec g' g) as [->|N].
+    + rewrite aget_aset_same. specialize (G g V). rewrite AM in G. destruct (aget g (sgroups s)); [|contradiction]. exact G.
+    + rewrite aget_aset_other by auto. apply G; auto.
+  - intro x. rewrite MF. unfold s_lookup. cbn [slive]. destruct (x =? id) eqn:E.
+    + apply Z.eqb_eq in E. subst x. now rewrite aget_adel_same.
+    + apply Z.eqb_neq in E. rewrite aget_adel_other by auto. apply L.
+  - intros g' gpx LG' loc'. unfold m2 in LG'. rewrite live_group_cache_drop in LG'.
+    unfold live_group, set_group in LG'. cbn [mgroups] in LG'.
+    destruct (valid_group g') eqn:V'; [|discriminate]. destruct (Z.eq_dec g' g) as [->|N].
+    + rewrite aget_aset_same, CP' in LG'. inversion LG'; subst gpx. unfold gp'. rewrite bucket_aset.
+      destruct (loc' =? loc); [apply NoDup_remove_node|]; apply (MB g gp LG).
+    + rewrite aget_aset_other in LG' by auto. apply (MB g' gpx). unfold live_group. now rewrite V'.
+  - split; cbn [slive sgroups]; [apply NoDup_adel; auto|]. intros x g' o' I. apply (SI x g' o'). eapply In_adel; eauto.
+  - apply (cinv_drop m m2 id C NE); auto; unfold m2; unfold cache_drop, set_group; cbn [mc0 mc1 mc2 mc3];
+      repeat match goal with |- context [if ?b then _ else _] => destruct b end; reflexivity.
+Qed.
+
+(* ------------------------------------------------------------------------------------------------ *)
+(** ** HAdestroy_group *)
+Lemma NoDup_filter_fst : forall A (f : Z * A -> bool) l, NoDup (map fst l) -> NoDup (map fst (filter f l)).
+Proof.
+  induction l as [|x t IH]; simpl; intros; auto. inversion H; subst.
+  destruct (f x); simpl; auto. constructor; auto.
+  intro X. apply H2. apply in_map_iff in X. destruct X as [y [E I]]. apply filter_In in I. apply in_map_iff. exists y; tauto.
+Qed.
+
+Lemma stored_group_is_group_of : forall s id g o, SIinv s -> In (id, (g, o)) (slive s) -> group_of id = g.
+Proof.
+  intros s id g o [_ SI] I. destruct (SI _ _ _ I) as (V & sg & i & A & C & Bi & L & E).
+  apply valid_group_range in V. subst id. apply group_of_enc; lia.
+Qed.
+
+Lemma destroy_refines : forall m s g, Rel m s ->
+  fst (ha_destroy g m) = fst (s_step (ADestroy g) s) /\ Rel (snd (ha_destroy g m)) (snd (s_step (ADestroy g) s)).
+Proof.
+  intros m s g R. pose proof R as (G & L & MB & SI & C).
+  unfold ha_destroy. cbn [s_step].
+  destruct (live_corr m s g G) as [[A B]|(gp & sg & A & B & V & AM & AS & EC & CB & PH & EN & NB)].
+  { rewrite A, B. cbn [fst snd]. auto. }
+  rewrite A, B. rewrite EC.
+  assert (U : u32 (scount sg - 1) = scount sg - 1) by (unfold u32; lia). rewrite U.
+  destruct (scount sg - 1 =? 0) eqn:Z1; cbn [fst snd]; (split; [reflexivity|]).
+  - (* last user: the table goes away *)
+    apply Z.eqb_eq in Z1.
+    set (m1 := set_cache m (cclear_group g (mc0 m)) (cclear_group g (mc1 m)) (cclear_group g (mc2 m)) (cclear_group g (mc3 m))).
+    set (gp' := mkGrp 0 (ghash gp) (gatoms gp) (gnext gp) []).
+    assert (MF : forall x, m_find x (set_group g gp' m1) = if group_of x =? g then None else m_find x m).
+    { intro x. rewrite m_find_set_group by auto. cbn [gcount gp']. destruct (group_of x =? g); reflexivity. }
+    assert (SF : forall x, s_lookup x (mkSS (aset g (mkS 0 (snext sg)) (sgroups s))
+                                            (filter (fun e => negb (fst (snd e) =? g)) (slive s)))
+                           = if group_of x =? g then None else s_lookup x s).
+    { intro x. unfold s_lookup. cbn [slive]. destruct (group_of x =? g) eqn:E.
+      - rewrite aget_filter_none; auto. intros [g' o] I. cbn [fst snd].
+        rewrite <- (stored_group_is_group_of s x g' o SI I). now rewrite E.
+      - rewrite aget_filter; auto. intros [g' o] I. cbn [fst snd].
+        rewrite <- (stored_group_is_group_of s x g' o SI I). now rewrite E. }
+    destruct SI as [ND SIe].
+    unfold Rel. split; [|split; [|split; [|split]]].
+    + intros g' V'. unfold set_group. cbn [mgroups sgroups m1 set_cache]. destruct (Z.eq_dec g' g) as [->|N].
+      * rewrite !aget_aset_same. cbn [gcount scount gp']. repeat split; lia.
+      * rewrite !aget_aset_other by auto. apply G; auto.
+    + intro x. rewrite MF, SF. destruct (group_of x =? g); auto.
+    + intros g' gpx LG loc. unfold live_group, set_group in LG. cbn [mgroups m1 set_cache] in LG.
+      destruct (valid_group g') eqn:V'; [|discriminate]. destruct (Z.eq_dec g' g) as [->|N].
+      * rewrite aget_aset_same in LG. cbn [gcount gp'] in LG. discriminate.
+      * rewrite aget_aset_other in LG by auto. apply (MB g' gpx). unfold live_group. now rewrite V'.
+    + split; cbn [slive sgroups]; [apply NoDup_filter_fst; auto|]. intros x g' o I. apply filter_In in I. destruct I as [I F].
+      cbn [fst snd] in F. apply negb_true_iff, Z.eqb_neq in F.
+      destruct (SIe _ _ _ I) as (V' & sg' & i & A' & R'). split; auto. exists sg', i. rewrite aget_aset_other by auto. auto.
+    + destruct C as (v0 & v1 & v2 & v3 & d01 & d02 & d03 & d12 & d13 & d23).
+      assert (CV : forall c, cval m c -> cval (set_group g gp' m1) (cclear_group g c)).
+      { intros c X. unfold cclear_group. destruct (group_of (cid c) =? g) eqn:E; [left; auto|].
+        destruct X as [X|X]; [left; auto|right]. rewrite MF, E. exact X. }
+      assert (CD : forall a b, cdist a b -> cdist (cclear_group g a) (cclear_group g b)).
+      { intros a b D. unfold cclear_group, cdist.
+        destruct (group_of (cid a) =? g), (group_of (cid b) =? g); cbn [cid cempty]; auto. }
+      unfold Cinv. cbn [mc0 mc1 mc2 mc3 set_group m1 set_cache]. repeat split; auto.
+  - (* other users remain: only the count changes *)
+    apply Z.eqb_neq in Z1.
+    set (gp' := mkGrp (scount sg - 1) (ghash gp) (gatoms gp) (gnext gp) (gbk gp)).
+    assert (CP' : gcount gp' <=? 0 = false) by (apply Z.leb_gt; cbn [gcount gp']; lia).
+    assert (MF : forall x, m_find x (set_group g gp' m) = m_find x m).
+    { intro x. rewrite m_find_set_group by auto. rewrite CP'. destruct (group_of x =? g) eqn:E; auto.
+      apply Z.eqb_eq in E. assert (LGx : live_group (group_of x) m = Some gp) by (rewrite E; exact A).
+      rewrite (m_find_live x m gp LGx). reflexivity. }
+    destruct SI as [ND SIe].
+    unfold Rel. split; [|split; [|split; [|split]]].
+    + intros g' V'. unfold set_group. cbn [mgroups sgroups]. destruct (Z.eq_dec g' g) as [->|N].
+      * rewrite !aget_aset_same. cbn [gcount scount ghash gnext snext gp']. repeat split; auto; lia.
+      * rewrite !aget_aset_other by auto. apply G; auto.
+    + intro x. rewrite MF. apply L.
+    + intros g' gpx LG loc. unfold live_group, set_group in LG. cbn [mgroups] in LG.
+      destruct (valid_group g') eqn:V'; [|discriminate]. destruct (Z.eq_dec g' g) as [->|N].
+      * rewrite aget_aset_same, CP' in LG. inversion LG; subst gpx. apply (MB g gp A).
+      * rewrite aget_aset_other in LG by auto. apply (MB g' gpx). unfold live_group. now rewrite V'.
+    + split; auto. cbn [slive sgroups]. intros x g' o I.
+      destruct (SIe _ _ _ I) as (V' & sg' & i & A' & C' & R'). split; auto.
+      destruct (Z.eq_dec g' g) as [->|N].
+      * rewrite AS in A'. inversion A'; subst sg'. exists (mkS (scount sg - 1) (snext sg)), i.
+        rewrite aget_aset_same. cbn [scount snext]. repeat split; try apply R'; lia.
+      * exists sg', i. rewrite aget_aset_other by auto. auto.
+    + destruct C as (v0 & v1 & v2 & v3 & D).
+      assert (CV : forall c, cval m c -> cval (set_group g gp' m) c).
+      { intros c [X|X]; [left; auto|right]. now rewrite MF. }
+      unfold Cinv. cbn [mc0 mc1 mc2 mc3 set_group]. repeat split; auto; apply D.
+Qed.
+
+(* ------------------------------------------------------------------------------------------------ *)
+(** ** HAsearch_atom: needs to know where the nodes sit *)
+Definition MMinv (m : mstate) : Prop :=
+  forall g gp, live_group g m = Some gp -> forall loc n, In n (bucket gp loc) ->
+    group_of (nid n) = g /\ loc_of (nid n) (ghash gp) = loc.
+Definition KDinv (m : mstate) : Prop := forall g gp, live_group g m = Some gp -> NoDup (map fst (gbk gp)).
+Definition Rel2 (m : mstate) (s : sstate) : Prop := Rel m s /\ MMinv m /\ KDinv m.
+
+Lemma In_aset : forall A k (v : A) l x, In x (map fst (aset k v l)) -> x = k \/ In x (map fst l).
+Proof.
+  induction l as [|[k2 v2] t IH]; simpl; intros x H.
+  - destruct H; auto.
+  - destruct (k =? k2) eqn:E; simpl in H.
+    + apply Z.eqb_eq in E. subst. destruct H; auto.
+    + destruct H; auto. destruct (IH _ H); auto.
+Qed.
+
+Lemma NoDup_aset : forall A k (v : A) l, NoDup (map fst l) -> NoDup (map fst (aset k v l)).
+Proof.
+  induction l as [|[k2 v2] t IH]; simpl; intros H.
+  - repeat constructor; auto.
+  - inversion H; subst. destruct (k =? k2) eqn:E; simpl.
+    + apply Z.eqb_eq in E. subst. constructor; auto.
+    + constructor; auto. intro X. destruct (In_aset _ _ _ _ _ X); auto. apply Z.eqb_neq in E. congruence.
+Qed.
+
+Lemma In_remove_node_elem : forall id n b, In n (remove_node id b) -> In n b.
+Proof. induction b as [|x t IH]; simpl; intros; auto. destruct (nid x =? id); simpl in *; tauto. Qed.
+
+Lemma find_In_nodup : forall n b, In n b -> NoDup (map nid b) -> find_node (nid n) b = Some (nobj n).
+Proof.
+  induction b as [|x t IH]; simpl; intros I ND; [contradiction|]. inversion ND; subst.
+  destruct I as [->|I]; [now rewrite Z.eqb_refl|].
+  destruct (nid x =? nid n) eqn:E; auto. apply Z.eqb_eq in E. exfalso. apply H1. rewrite E. now apply in_map.
+Qed.
+
+Lemma find_Some_In : forall id o b, find_node id b = Some o -> exists n, In n b /\ nid n = id /\ nobj n = o.
+Proof.
+  induction b as [|x t IH]; simpl; intros H; [discriminate|].
+  destruct (nid x =? id) eqn:E.
+  - apply Z.eqb_eq in E. inversion H. exists x; auto.
+  - destruct (IH H) as (n & I & R). exists n; auto.
+Qed.
+
+Lemma aget_nodup_In : forall A k (v : A) l, NoDup (map fst l) -> In (k, v) l -> aget k l = Some v.
+Proof.
+  induction l as [|[k2 v2] t IH]; simpl; intros ND I; [contradiction|]. inversion ND; subst.
+  destruct I as [E|I].
+  - inversion E; subst. now rewrite Z.eqb_refl.
+  - destruct (k =? k2) eqn:E; auto. apply Z.eqb_eq in E. subst. exfalso. apply H1. apply in_map_iff. exists (k2, v); auto.
+Qed.
+
+Lemma ext_set_group : forall m g gp', MMinv m -> KDinv m -> valid_group g = true ->
+  (0 < gcount gp' ->
+     (forall loc n, In n (bucket gp' loc) -> group_of (nid n) = g /\ loc_of (nid n) (ghash gp') = loc) /\
+     NoDup (map fst (gbk gp'))) ->
+  MMinv (set_group g gp' m) /\ KDinv (set_group g gp' m).
+Proof.
+  intros m g gp' MM KD V H.
+  assert (X : forall g' gpx, live_group g' (set_group g gp' m) = Some gpx ->
+              (g' = g /\ gpx = gp' /\ 0 < gcount gp') \/ live_group g' m = Some gpx).
+  { intros g' gpx LG. unfold live_group, set_group in *. cbn [mgroups] in LG.
+    destruct (valid_group g') eqn:V'; [|discriminate]. destruct (Z.eq_dec g' g) as [->|N].
+    - rewrite aget_aset_same in LG. destruct (gcount gp' <=? 0) eqn:E; [discriminate|]. inversion LG; subst.
+      apply Z.leb_gt in E. left; auto.
+    - rewrite aget_aset_other in LG by auto. right. exact LG. }
+  split.
+  - intros g' gpx LG loc n I. destruct (X _ _ LG) as [(-> & -> & P)|O]; [apply (proj1 (H P)); auto|eapply MM; eauto].
+  - intros g' gpx LG. destruct (X _ _ LG) as [(-> & -> & P)|O]; [apply (proj2 (H P))|eapply KD; eauto].
+Qed.
+
+Lemma ext_cache : forall m m', (forall g, live_group g m' = live_group g m) -> MMinv m -> KDinv m -> MMinv m' /\ KDinv m'.
+Proof.
+  intros m m' E MM KD. split.
+  - intros g gp LG. rewrite E in LG. eapply MM; eauto.
+  - intros g gp LG. rewrite E in LG. eapply KD; eauto.
+Qed.
+
+Lemma search_refines : forall m s g key, Rel2 m s ->
+  ha_search g key m = fst (s_step (ASearch g key) s).
+Proof.
+  intros m s g key (R & MM & KD). pose proof R as (G & L & MB & SI & C).
+  unfold ha_search. cbn [s_step].
+  destruct (live_corr m s g G) as [[A B]|(gp & sg & A & B & V & AM & AS & _)].
+  { now rewrite A, B. }
+  rewrite A, B. cbn [fst].
+  match goal with |- (if ?a then _ else _) = (if ?b then _ else _) => assert (E : a = b); [|now rewrite E] end.
+  apply eq_true_iff_eq. rewrite !existsb_exists. split.
+  - intros ([k b] & I & Hb). cbn [snd] in Hb. apply existsb_exists in Hb. destruct Hb as (n & In_b & Ho).
+    apply Z.eqb_eq in Ho.
+    assert (BK : bucket gp k = b) by (unfold bucket; now rewrite (aget_nodup_In _ k b (gbk gp) (KD g gp A) I)).
+    assert (Inb : In n (bucket gp k)) by (now rewrite BK).
+    destruct (MM g gp A k n Inb) as [GN LN].
+    assert (F : m_find (nid n) m = Some key).
+    { rewrite (m_find_live (nid n) m gp) by (rewrite GN; exact A). rewrite LN, <- Ho.
+      apply find_In_nodup; auto. apply (MB g gp A). }
+    rewrite L in F. unfold s_lookup in F. destruct (aget (nid n) (slive s)) as [[g' o]|] eqn:AG; [|discriminate].
+    cbn in F. inversion F; subst o. apply aget_In in AG.
+    exists (nid n, (g', key)). split; auto. cbn [fst snd].
+    rewrite <- (stored_group_is_group_of s _ _ _ SI AG), GN, !Z.eqb_refl. reflexivity.
+  - intros ([id [g' o]] & I & Hb). cbn [fst snd] in Hb. apply andb_true_iff in Hb. destruct Hb as [Eg Eo].
+    apply Z.eqb_eq in Eg, Eo. subst g' o.
+    assert (GI : group_of id = g) by (eapply stored_group_is_group_of; eauto).
+    assert (F : s_lookup id s = Some key).
+    { unfold s_lookup. rewrite (aget_nodup_In _ id (g, key) (slive s) (proj1 SI) I). reflexivity. }
+    rewrite <- L in F. rewrite (m_find_live id m gp) in F by (rewrite GI; exact A).
+    destruct (find_Some_In _ _ _ F) as (n & Inb & _ & Ho).
+    unfold bucket in Inb. destruct (aget (loc_of id (ghash gp)) (gbk gp)) as [b|] eqn:AB; [|contradiction].
+    exists (loc_of id (ghash gp), b). split; [now apply aget_In|]. cbn [snd]. apply existsb_exists. exists n. split; auto.
+    now apply Z.eqb_eq.
+Qed.
+
+(** the extra invariants are kept by every operation *)
+Lemma ext_step : forall o m s, Rel2 m s -> op_ok o s = true -> MMinv (snd (m_step o m)) /\ KDinv (snd (m_step o m)).
+Proof.
+  intros o m s (R & MM & KD) OK. pose proof R as (G & L & MB & SI & C).
+  destruct o as [g hs|g|g obj|id|id|g key|id]; cbn [m_step snd]; auto.
+  - (* init *)
+    unfold ha_init. destruct (negb (valid_group g) || (hs =? 0)) eqn:A; [cbn [snd]; auto|].
+    apply orb_false_iff in A. destruct A as [V _]. apply negb_false_iff in V.
+    destruct (negb (Z.land hs (hs - 1) =? 0)); cbn [snd]; auto.
+    apply ext_set_group; auto. cbn [gcount ghash gbk]. intros _.
+    destruct (aget g (mgroups m)) as [gp|] eqn:AM.
+    + destruct (gcount gp =? 0) eqn:Z0.
+      * cbn [ghash gbk]. split; [intros loc n I; unfold bucket in I; simpl in I; contradiction|constructor].
+      * apply Z.eqb_neq in Z0. specialize (G g V). rewrite AM in G. destruct (aget g (sgroups s)) as [sg|]; [|contradiction].
+        assert (LG : live_group g m = Some gp).
+        { unfold live_group. rewrite V, AM. replace (gcount gp <=? 0) with false; auto. symmetry. apply Z.leb_gt. lia. }
+        split; [intros loc n I; apply (MM g gp LG loc n I)|apply (KD g gp LG)].
+    + cbn [gcount Z.eqb ghash gbk]. split; [intros loc n I; unfold bucket in I; simpl in I; contradiction|constructor].
+  - (* destroy *)
+    unfold ha_destroy. destruct (live_group g m) as [gp|] eqn:LG; [|cbn [snd]; auto].
+    destruct (live_group_facts g m gp LG) as (V & AM & CP).
+    destruct (u32 (gcount gp - 1) =? 0) eqn:Z0; cbn [snd].
+    + apply ext_set_group; auto. cbn [gcount]. lia.
+    + apply ext_set_group; auto. cbn [gcount ghash gbk]. intros _.
+      split; [intros loc n I; apply (MM g gp LG loc n I)|apply (KD g gp LG)].
+  - (* register *)
+    unfold ha_register. destruct (live_group g m) as [gp|] eqn:LG; [|cbn [snd]; auto]. cbn [snd].
+    destruct (live_group_facts g m gp LG) as (V & AM & CP).
+    destruct (live_corr m s g G) as [[A B]|(gp0 & sg & A & B & _ & _ & AS & EC & CB & (k & Kb & HK) & EN & NB)]; [congruence|].
+    rewrite LG in A. inversion A; subst gp0. cbn [op_ok] in OK. rewrite B in OK.
+    apply andb_true_iff in OK. destruct OK as [_ OK]. apply Z.ltb_lt in OK. unfold ATOM_LIMIT in OK.
+    assert (Vr := valid_group_range g V).
+    apply ext_set_group; auto. cbn [gcount ghash gbk]. intros _. split; [|apply NoDup_aset, (KD g gp LG)].
+    intros loc n I. rewrite bucket_aset in I. destruct (loc =? gnext gp mod ghash gp) eqn:E; [|apply (MM g gp LG loc n I)].
+    apply Z.eqb_eq in E. destruct I as [<-|I]; [|rewrite E; apply (MM g gp LG _ n I)].
+    cbn [nid]. rewrite EN, atom_of_enc by lia. split; [apply group_of_enc; lia|].
+    rewrite E, HK, EN. apply loc_of_enc; lia.
+  - (* lookup *)
+    unfold ha_object, hai_object.
+    repeat match goal with |- context [if ?b then _ else _] => destruct b end; cbn [snd]; auto;
+      try (destruct (m_find id m); cbn [snd]; auto);
+      (split; [exact MM|exact KD]).
+  - (* remove *)
+    unfold ha_remove. destruct (live_group (group_of id) m) as [gp|] eqn:LG; [|cbn [snd]; auto].
+    destruct (find_node id (bucket gp (loc_of id (ghash gp)))); cbn [snd]; auto.
+    destruct (live_group_facts _ m gp LG) as (V & AM & CP).
+    match goal with |- MMinv (cache_drop _ ?mm) /\ _ => assert (X : MMinv mm /\ KDinv mm) end.
+    { apply ext_set_group; auto. cbn [gcount ghash gbk]. intros _. split; [|apply NoDup_aset, (KD _ gp LG)].
+      intros loc n I. rewrite bucket_aset in I. destruct (loc =? loc_of id (ghash gp)) eqn:E; [|apply (MM _ gp LG loc n I)].
+      apply Z.eqb_eq in E. rewrite E. apply (MM _ gp LG). eapply In_remove_node_elem; eauto. }
+    destruct X as [X1 X2]. apply (ext_cache _ _ (fun g' => live_group_cache_drop g' id _) X1 X2).
+Qed.
+
+Lemma Rel2_init : Rel2 m_init s_init.
+Proof.
+  split; [exact Rel_init|]. split; intros g gp H; unfold live_group in H; simpl in H; destruct (valid_group g); discriminate.
+Qed.
+
+(* ------------------------------------------------------------------------------------------------ *)
 (** * Histories *)
 Definition op_covered (o : aop) : bool :=
   match o with AInit _ _ | AReg _ _ | ALookup _ | AGroup _ => true | _ => false end.
 
-Lemma step_refines : forall o m s, Rel m s -> op_covered o = true -> op_ok o s = true ->
-  fst (m_step o m) = fst (s_step o s) /\ Rel (snd (m_step o m)) (snd (s_step o s)).
+Lemma step_refines_full : forall o m s, Rel2 m s -> op_ok o s = true ->
+  fst (m_step o m) = fst (s_step o s) /\ Rel2 (snd (m_step o m)) (snd (s_step o s)).
 Proof.
-  intros o m s R Cv OK. destruct o; try discriminate.
-  - apply init_refines; auto.
-  - apply reg_refines; auto.
-  - apply lookup_refines; auto.
-  - split; [apply group_refines|exact R].
+  intros o m s R2 OK. pose proof R2 as (R & MM & KD).
+  assert (X : fst (m_step o m) = fst (s_step o s) /\ Rel (snd (m_step o m)) (snd (s_step o s))).
+  { destruct o.
+    - apply init_refines; auto.
+    - apply destroy_refines; auto.
+    - apply reg_refines; auto.
+    - apply lookup_refines; auto.
+    - apply remove_refines; auto.
+    - split; [cbn [m_step fst]; apply search_refines; auto|cbn [m_step s_step snd]; destruct (s_live_group g s); exact R].
+    - split; [apply group_refines|exact R]. }
+  destruct X as [E R']. split; auto. split; auto. eapply ext_step; eauto.
 Qed.
 
-Lemma run_refines : forall h m s, Rel m s -> forallb op_covered h = true -> hist_ok h s = true ->
-  fst (m_run h m) = fst (s_run h s) /\ Rel (snd (m_run h m)) (snd (s_run h s)).
+Lemma run_refines_full : forall h m s, Rel2 m s -> hist_ok h s = true ->
+  fst (m_run h m) = fst (s_run h s) /\ Rel2 (snd (m_run h m)) (snd (s_run h s)).
 Proof.
-  induction h as [|o t IH]; intros m s R Cv OK; [simpl; auto|].
-  cbn [forallb] in Cv. apply andb_true_iff in Cv. destruct Cv as [Co Ct].
+  induction h as [|o t IH]; intros m s R OK; [simpl; auto|].
   cbn [hist_ok] in OK. apply andb_true_iff in OK. destruct OK as [Oo Ot].
-  destruct (step_refines o m s R Co Oo) as [E R'].
+  destruct (step_refines_full o m s R Oo) as [E R'].
   cbn [m_run s_run]. destruct (m_step o m) as [r m1]. destruct (s_step o s) as [r2 s1]. cbn [fst snd] in *.
-  destruct (IH m1 s1 R' Ct Ot) as [E2 R2].
+  destruct (IH m1 s1 R' Ot) as [E2 R2].
   destruct (m_run t m1) as [rs m2]. destruct (s_run t s1) as [rs2 s2]. cbn [fst snd] in *.
   split; [congruence|auto].
 Qed.
 
+Lemma atom_refines_map_lemma : forall h, hist_ok h s_init = true -> fst (m_run h m_init) = fst (s_run h s_init).
+Proof. intros h O. apply (run_refines_full h m_init s_init Rel2_init O). Qed.
+
 Lemma atom_refines_map_partial_lemma : forall h, forallb op_covered h = true -> hist_ok h s_init = true ->
   fst (m_run h m_init) = fst (s_run h s_init).
-Proof. intros h C O. apply (run_refines h m_init s_init Rel_init C O). Qed.
+Proof. intros h _ O. now apply atom_refines_map_lemma. Qed.
+
+(** along every admissible history: no id is live twice in the map, every live id is enc(g,i) of a live group with
+    i below the number of ids issued, and the implementation's uncached lookup equals the map *)
+Lemma reachable_invariant_lemma : forall h, hist_ok h s_init = true ->
+  let m := snd (m_run h m_init) in let s := snd (s_run h s_init) in
+  NoDup (map fst (slive s)) /\ (forall id, m_find id m = s_lookup id s) /\ Cinv m.
+Proof.
+  intros h O. destruct (run_refines_full h m_init s_init Rel2_init O) as [_ ((G & L & MB & SI & C) & _)].
+  cbn zeta. split; [apply SI|split; auto].
+Qed.
 
 (** decodability of issued ids *)
 Lemma make_atom_decodable_lemma : forall g n, 0 <= g < 16 -> 0 <= n < 268435456 ->
@@ -626,4 +1022,134 @@ Lemma make_atom_decodable_lemma : forall g n, 0 <= g < 16 -> 0 <= n < 268435456 
 Proof.
   intros g n Hg Hn. rewrite atom_of_enc by lia. split; [apply group_of_enc; lia|]. split; [apply enc_index; lia|].
   intros g' n' Hg' Hn' E. rewrite atom_of_enc in E by lia. apply enc_inj in E; auto.
+Qed.
+
+(* ------------------------------------------------------------------------------------------------ *)
+(** * File machine: nothing of a fully released past reaches the next open *)
+Lemma quiescent_no_rec : forall st p, f_quiescent st = true -> rec_of_path p st = None /\ fids st = [].
+Proof.
+  unfold f_quiescent, rec_of_path. intros st p H. apply andb_true_iff in H. destruct H as [A B].
+  split; [|destruct (fids st); [auto|discriminate]].
+  induction (frecs st) as [|[k r] t IH]; simpl in *; auto.
+  apply andb_true_iff in A. destruct A as [A1 A2]. apply Z.eqb_eq in A1. rewrite A1.
+  rewrite andb_false_r. auto.
+Qed.
+
+Lemma all_released_is_initial_lemma : forall st p acc,
+  f_quiescent st = true -> Z.land acc DFACC_ALL = acc ->
+  let fr := mkF p 1 0 (if acc =? DFACC_CREATE then DFACC_ALL else Z.lor acc DFACC_READ) in
+  exists st' r,
+    f_step (FOpen p acc) st = (ROk (fnext st), st') /\
+    file_of (fnext st) st' = Some (r, fr) /\ fids st' = [(fnext st, OFile r)] /\
+    (forall id, id <> fnext st -> aget id (fids st') = None) /\
+    (* exactly what the very first open of a fresh library produces *)
+    file_of 0 (snd (f_step (FOpen p acc) f_init)) = Some (0, fr) /\
+    fst (f_step (FOpen p acc) f_init) = ROk 0.
+Proof.
+  intros st p acc Q A fr. destruct (quiescent_no_rec st p Q) as [NR NF].
+  assert (A' : negb (Z.land acc DFACC_ALL =? acc) = false) by (rewrite A, Z.eqb_refl; reflexivity).
+  eexists. exists (Z.of_nat (length (frecs st))).
+  unfold f_step. rewrite A', NR. split; [reflexivity|].
+  unfold file_of. cbn [fids frecs aget]. rewrite Z.eqb_refl, aget_aset_same. cbn [frefcount]. cbn [Z.eqb].
+  split; [reflexivity|]. rewrite NF. split; [reflexivity|]. split.
+  - intros id N. cbn [aget]. apply Z.eqb_neq in N. now rewrite N.
+  - change (rec_of_path p f_init) with (@None (Z * frec)).
+    cbn [snd fst]. unfold file_of, f_init. cbn [fids frecs fnext aget aset length Z.of_nat].
+    rewrite !Z.eqb_refl. cbn [frefcount Z.eqb]. split; reflexivity.
+Qed.
+
+(* ------------------------------------------------------------------------------------------------ *)
+(** * SD ids (expressions regenerated from mfsd.c) *)
+Lemma land_high12 : forall x, 0 <= x < 4294967296 -> Z.land x 4293918720 = x - x mod 1048576.
+Proof.
+  intros x B. set (q := x / 1048576).
+  assert (Q : 0 <= q < 4096) by (unfold q; lia).
+  assert (E : x - x mod 1048576 = q * 2 ^ 20) by (unfold q; change (2 ^ 20) with 1048576; lia).
+  rewrite E. apply Z.bits_inj'. intros i Hi. rewrite Z.land_spec.
+  change 4293918720 with (4095 * 2 ^ 20).
+  destruct (Z_lt_ge_dec i 20).
+  - rewrite !Z.mul_pow2_bits_low by lia. apply andb_false_r.
+  - replace i with (20 + (i - 20)) by lia. set (j := i - 20). assert (0 <= j) by (unfold j; lia).
+    rewrite !Z.mul_pow2_bits_add by lia.
+    assert (TX : Z.testbit x (20 + j) = Z.testbit q j).
+    { unfold q. change 1048576 with (2 ^ 20). rewrite <- Z.shiftr_div_pow2 by lia. rewrite Z.shiftr_spec by lia.
+      f_equal. lia. }
+    rewrite TX. change 4095 with (Z.ones 12).
+    destruct (Z_lt_ge_dec j 12).
+    + rewrite Z.ones_spec_low by lia. apply andb_true_r.
+    + rewrite Z.ones_spec_high by lia. rewrite andb_false_r. symmetry.
+      destruct (Z.eq_dec q 0) as [->|NZ]; [apply Z.bits_0|].
+      apply Z.bits_above_log2; [lia|].
+      assert (Z.log2 q < 12) by (apply Z.log2_lt_pow2; [lia|change (2 ^ 12) with 4096; lia]). lia.
+Qed.
+
+Ltac sd_arith :=
+  repeat rewrite Z.shiftl_mul_pow2 by lia; repeat rewrite Z.shiftr_div_pow2 by lia;
+  change 15 with (2 ^ 4 - 1); change 4095 with (2 ^ 12 - 1); change 65535 with (2 ^ 16 - 1);
+  repeat rewrite land_ones_mod by lia;
+  change (2 ^ 4) with 16; change (2 ^ 12) with 4096; change (2 ^ 16) with 65536; change (2 ^ 20) with 1048576.
+
+Lemma sd_file_id_spec : forall c, 0 <= c < 2048 -> SD_file_id c = c * 1048576 + 393216 + c.
+Proof. intros c B. unfold SD_file_id. sd_arith. lia. Qed.
+
+Lemma sd_sds_id_spec : forall c i, 0 <= c < 2048 -> 0 <= i < 65536 -> SD_sds_id (SD_file_id c) i = c * 1048576 + 262144 + i.
+Proof. intros c i B Bi. rewrite sd_file_id_spec by lia. unfold SD_sds_id. sd_arith. lia. Qed.
+
+Lemma sd_dim_id_spec : forall c i d, 0 <= c < 2048 -> 0 <= i < 65536 -> 0 <= d < 65536 ->
+  SD_dim_id (SD_sds_id (SD_file_id c) i) d = c * 1048576 + 327680 + d.
+Proof.
+  intros c i d B Bi Bd. rewrite sd_sds_id_spec by lia. unfold SD_dim_id.
+  rewrite land_high12 by lia. sd_arith. lia.
+Qed.
+
+Lemma sd_decode : forall c k x, 0 <= c < 2048 -> 0 <= k < 16 -> 0 <= x < 65536 ->
+  let id := c * 1048576 + k * 65536 + x in
+  SD_id_type id = k /\ SD_id_slot id = c /\ SD_var_index id = x /\ SD_dim_index id = x.
+Proof.
+  intros c k x B Bk Bx id. unfold id, SD_id_type, SD_id_slot, SD_var_index, SD_dim_index. sd_arith.
+  repeat split; lia.
+Qed.
+
+Lemma sdid_decode_encode_lemma : forall c i d, 0 <= c < 2048 -> 0 <= i < 65536 -> 0 <= d < 65536 ->
+  let fid := SD_file_id c in let sds := SD_sds_id fid i in let dim := SD_dim_id sds d in
+  (SD_id_type fid = CDFTYPE /\ SD_id_slot fid = c) /\
+  (SD_id_type sds = SDSTYPE /\ SD_id_slot sds = c /\ SD_var_index sds = i) /\
+  (SD_id_type dim = DIMTYPE /\ SD_id_slot dim = c /\ SD_dim_index dim = d) /\
+  fid <> -1 /\ sds <> -1 /\ dim <> -1.
+Proof.
+  intros c i d B Bi Bd. cbv zeta.
+  rewrite sd_dim_id_spec, sd_sds_id_spec, sd_file_id_spec by lia.
+  destruct (sd_decode c 6 c B ltac:(lia) ltac:(lia)) as (F1 & F2 & _).
+  destruct (sd_decode c 4 i B ltac:(lia) Bi) as (S1 & S2 & S3 & _).
+  destruct (sd_decode c 5 d B ltac:(lia) Bd) as (D1 & D2 & _ & D4).
+  change (6 * 65536) with 393216 in *. change (4 * 65536) with 262144 in *. change (5 * 65536) with 327680 in *.
+  unfold CDFTYPE, SDSTYPE, DIMTYPE. repeat split; auto; lia.
+Qed.
+
+(** SDIhandle_from_id + NC_check_id: an id passes only with the kind the call expects and an open file slot *)
+Lemma sdid_kind_check_lemma : forall id typ ncdf open slot,
+  sd_check id typ ncdf open = Some slot ->
+  id <> -1 /\ SD_id_type id = typ /\ slot = SD_id_slot id /\ 0 <= slot < ncdf /\ open slot = true.
+Proof.
+  unfold sd_check, sd_valid_slot. intros id typ ncdf open slot H.
+  destruct (id =? -1) eqn:E1; [discriminate|]. apply Z.eqb_neq in E1.
+  destruct (SD_id_type id =? typ) eqn:E2; [|discriminate]. apply Z.eqb_eq in E2. cbn [negb] in H.
+  destruct ((0 <=? SD_id_slot id) && (SD_id_slot id <? ncdf) && open (SD_id_slot id)) eqn:E3; [|discriminate].
+  inversion H; subst slot. apply andb_true_iff in E3. destruct E3 as [E3 O]. apply andb_true_iff in E3. destruct E3 as [A B].
+  apply Z.leb_le in A. apply Z.ltb_lt in B. repeat split; auto.
+Qed.
+
+Lemma sdid_wrong_kind_or_closed_rejected_lemma : forall c i ncdf open, 0 <= c < 2048 -> 0 <= i < 65536 ->
+  let sds := SD_sds_id (SD_file_id c) i in
+  sd_check sds CDFTYPE ncdf open = None /\ sd_check sds DIMTYPE ncdf open = None /\
+  (open c = false -> sd_check sds SDSTYPE ncdf open = None) /\
+  (0 <= c < ncdf -> open c = true -> sd_check sds SDSTYPE ncdf open = Some c).
+Proof.
+  intros c i ncdf open B Bi. cbv zeta.
+  destruct (sdid_decode_encode_lemma c i 0 B Bi ltac:(lia)) as (_ & (T & S & _) & _ & _ & N & _).
+  cbv zeta in T, S, N. unfold sd_check, sd_valid_slot. apply Z.eqb_neq in N. rewrite N, T, S.
+  unfold SDSTYPE, CDFTYPE, DIMTYPE. cbn [Z.eqb Pos.eqb negb].
+  repeat split; auto.
+  - intros O. rewrite O. now rewrite andb_false_r.
+  - intros [A1 A2] O. rewrite O. apply Z.leb_le in A1. apply Z.ltb_lt in A2. now rewrite A1, A2.
 Qed.
